@@ -356,12 +356,12 @@ def line_rule(ctx: Ctx) -> None:
                 r.check(ok, key, f.loc(call), f"{cn}.{name}: {c.name}(line_number={ast.unparse(arg) if arg is not None else '?'}): {why}")
     if n < 12:
         raise AnalysisError(f"R15.line: only {n} parser exception constructions found")
-    f = m.method("Parser", "_sanitize", own=True)
-    txt = " ".join(ast.unparse(f.node).split())
-    ok = "(index + 1, line) for index, line in enumerate(self.program.splitlines())" in txt
-    r.check(ok, "Parser._sanitize|numbering", f.loc(), "entries are no longer numbered index+1 over program.splitlines()")
-    import re as _re
-    ok = bool(_re.search(r"\(index, line\.split\([^)]*\)\[0\]\.strip\(\)\) for index, line in self\.sanitized_program", txt))
+    from ..parsershape import sanitize_form
+    f, form = sanitize_form(m)
+    ok = form is not None and form["number"] == "Add(1, _c0)" and form["iter"] == "enumerate(P0.program.splitlines())"
+    r.check(ok, "Parser._sanitize|numbering", f.loc(), "entries are no longer numbered index+1 over program.splitlines() "
+            f"(recovered form: {form})")
+    ok = form is not None and "_c1" in form["text"] and "_c0" not in form["text"]
     r.check(ok, "Parser._sanitize|carry", f.loc(), "comment stripping no longer keeps each entry's line number")
     f = m.method("Parser", "_tokenize", own=True)
     txt = " ".join(ast.unparse(f.node).split())
